@@ -140,13 +140,27 @@ def run(ctx):
     for c in walk_no_nested(lin.node):
         if isinstance(c, ast.Call) and isinstance(c.func, ast.Attribute) and c.func.attr in ("match", "search") \
                 and R.pattern_of(c.func.value, lin) and c.args and isinstance(c.args[0], ast.Name):
-            interp.add(c.args[0].id)
+            from .c09 import proto_kind
+            if proto_kind(R.pattern_of(c.func.value, lin)[1]) in ("size", "status"):
+                interp.add(c.args[0].id)  # the line itself (the tail of a NO reply, decoded in place, is a part of it)
     if len(interp) != 1:
         raise AnalysisError("K4", "line reader: interpreted variable not identified (%s)" % sorted(interp))
     v = next(iter(interp))
+    # the line may reach that variable through plain copies (`ret = line`): the copies' sources are interpreted variables too
+    vs = {v}
+    grew = True
+    while grew:
+        grew = False
+        for st in walk_no_nested(lin.node):
+            if isinstance(st, ast.Assign) and isinstance(st.value, ast.Name) and st.value.id not in vs \
+                    and any(isinstance(t, ast.Name) and t.id in vs for t in st.targets):
+                vs.add(st.value.id)
+                grew = True
     k = 0
     for st in walk_no_nested(lin.node):
-        if isinstance(st, ast.Assign) and any(isinstance(t, ast.Name) and t.id == v for t in st.targets):
+        if isinstance(st, ast.Assign) and any(isinstance(t, ast.Name) and t.id in vs for t in st.targets):
+            if isinstance(st.value, ast.Name) and st.value.id in vs:
+                continue  # a copy
             k += 1
             if isinstance(st.value, ast.Constant) and st.value.value in (b"", "", None):
                 ctx.holds("K4", "%s: %s (nothing to interpret)" % (lin.qualname, norm(st)))
